@@ -408,8 +408,12 @@ func runC08RdnsRealTime(c *fw.Ctx, id string) {
 	resetProcessState()
 	old := reversedns.LookupAddrFn
 	reversedns.LookupAddrFn = func(ctx context.Context, addr string) ([]string, error) {
-		<-ctx.Done()
-		return nil, ctx.Err()
+		select {
+		case <-ctx.Done():
+			return nil, ctx.Err()
+		case <-time.After(14 * time.Second): // harness escape hatch: a lookup without a deadline must not hang the check
+			return nil, errors.New("released by harness")
+		}
 	}
 	defer func() { reversedns.LookupAddrFn = old }()
 	var l []net.IP
@@ -422,7 +426,7 @@ func runC08RdnsRealTime(c *fw.Ctx, id string) {
 	c.Nontrivial("rdns-realtime")
 	c.Count("rdns_realtime_ms", int(el.Milliseconds()))
 	if el > 11*time.Second {
-		c.Violate("C08", "rdns-serialised", fmt.Sprintf("%s: 4 stalled lookups took %v of real time; concurrent lookups share one 5 s timeout", id, el.Round(100*time.Millisecond)), nil)
+		c.Violate("C08", "rdns-realtime-bound", fmt.Sprintf("%s: 4 stalled lookups took %v of real time; concurrent lookups share one 5 s timeout", id, el.Round(100*time.Millisecond)), nil)
 	}
 }
 
